@@ -197,6 +197,21 @@ Section WithH.
           else (Some EMismatch, set_err v1 EMismatch)
       end.
 
+  (* "bs is exactly the bytes the descriptor (dg, sz) names" *)
+  Definition matches_desc (dg : str) (sz : Z) (bs : str) : Prop :=
+    Z.of_nat (length bs) = sz /\ dg = digest_of (alg_of dg) bs /\ valid_digest dg = true.
+
+  (* an arbitrary use of a VerifyReader: any sequence of Read(k) and Verify calls;
+     [out] collects the bytes the Reads returned *)
+  Inductive vop := OpRead (k : nat) | OpVerify.
+
+  Fixpoint vr_run (fuel : nat) (dg : str) (ops : list vop) (v : vrd) (out : str) : vrd * str :=
+    match ops with
+    | [] => (v, out)
+    | OpRead k :: r => let '((bs, _), v') := vr_read v k in vr_run fuel dg r v' (out ++ bs)
+    | OpVerify :: r => let '(_, v') := vr_verify fuel dg v in vr_run fuel dg r v' out
+    end.
+
   Section Fixed.
   Variable fixed : bool.
   Definition new_vr := new_vr_gen fixed.
@@ -355,3 +370,91 @@ Section WithH.
 
   End Fixed.
 End WithH.
+
+(* ------------------------------------------------------------------ histories *)
+(* every state a store can reach from empty by any sequence of pushes (any
+   descriptor, any reader script, any fuel), sequentially *)
+Section Histories.
+  Variable H : str -> str -> str.
+
+  Inductive mem_reach : mem -> Prop :=
+  | mem_reach_nil : mem_reach []
+  | mem_reach_push comb fuel m d src e m' :
+      mem_reach m -> mem_push H comb true fuel m d src = (e, m') -> mem_reach m'
+  | mem_reach_limited comb fuel limit m d evs e m' :
+      mem_reach m -> limited_push (mem_push H comb true fuel) limit m d evs = (e, m') -> mem_reach m'.
+
+  Inductive oci_reach : oci -> Prop :=
+  | oci_reach_nil : oci_reach []
+  | oci_reach_push comb fuel s d src e s' :
+      oci_reach s -> oci_push H comb true fuel s d src = (e, s') -> oci_reach s'
+  | oci_reach_limited comb fuel limit s d evs e s' :
+      oci_reach s -> limited_push (oci_push H comb true fuel) limit s d evs = (e, s') -> oci_reach s'.
+
+  Inductive file_reach : fstore -> Prop :=
+  | file_reach_nil : file_reach (mkFs [] [] [] [])
+  | file_reach_push comb fuel s name d evs e s' :
+      file_reach s -> file_push H comb true fuel s name d evs = (e, s') -> file_reach s'.
+
+  (* ---------------------------------------------------------------- concurrent pushes into one OCI layout *)
+  (* Each push is a thread: Stat, CreateTemp, a sequence of Writes to its own
+     ingest file (any split of what CopyBuffer writes), then either Remove (the
+     verification failed) or Chmod+Rename onto blobs/<alg>/<encoded>.  A schedule
+     is a list of (thread, chunk size) choices; any interleaving is a schedule. *)
+  Inductive pc :=
+  | PStart
+  | PIngest (written todo : str) (res : option rerr)   (* the ingest file holds [written] *)
+  | PDone (r : option rerr).
+
+  Record thr := mkThr { t_d : desc; t_evs : list ev; t_comb : bool; t_fuel : nat; t_pc : pc }.
+  Record cstate := mkC { c_blobs : oci; c_thr : list thr }.
+
+  Fixpoint set_nth {A} (l : list A) (i : nat) (x : A) : list A :=
+    match l, i with
+    | [], _ => []
+    | _ :: r, O => x :: r
+    | y :: r, S j => y :: set_nth r j x
+    end.
+
+  Definition with_pc (t : thr) (p : pc) : thr := mkThr (t_d t) (t_evs t) (t_comb t) (t_fuel t) p.
+
+  Definition cstep (st : cstate) (i n : nat) : option cstate :=
+    match nth_error (c_thr st) i with
+    | None => None
+    | Some t =>
+        let upd p := set_nth (c_thr st) i (with_pc t p) in
+        match t_pc t with
+        | PDone _ => None
+        | PStart =>
+            if negb (valid_digest (d_dg (t_d t))) then Some (mkC (c_blobs st) (upd (PDone (Some EBadDigest))))
+            else match oci_get (c_blobs st) (d_dg (t_d t)) with
+                 | Some _ => Some (mkC (c_blobs st) (upd (PDone (Some EExists))))
+                 | None =>
+                     let '((e, out), _) := copy_buffer H (t_comb t) true (t_fuel t) (mkBase (t_evs t) None)
+                                                       oci_bufsz (d_dg (t_d t)) (d_sz (t_d t)) in
+                     Some (mkC (c_blobs st) (upd (PIngest [] out e)))
+                 end
+        | PIngest w todo e =>
+            match todo with
+            | _ :: _ =>
+                let k := S (Nat.min n (length todo - 1)) in
+                Some (mkC (c_blobs st) (upd (PIngest (w ++ firstn k todo) (skipn k todo) e)))
+            | [] =>
+                match e with
+                | Some er => Some (mkC (c_blobs st) (upd (PDone (Some er))))           (* os.Remove(ingest) *)
+                | None => Some (mkC ((d_dg (t_d t), w) :: c_blobs st) (upd (PDone None))) (* Chmod; Rename *)
+                end
+            end
+        end
+    end.
+
+  Fixpoint crun (st : cstate) (sched : list (nat * nat)) : option cstate :=
+    match sched with
+    | [] => Some st
+    | (i, n) :: r => match cstep st i n with Some st' => crun st' r | None => None end
+    end.
+
+  (* files under ingest/ at this instant *)
+  Definition ingest_files (st : cstate) : list str :=
+    flat_map (fun t => match t_pc t with PIngest w _ _ => [w] | _ => [] end) (c_thr st).
+End Histories.
